@@ -37,6 +37,7 @@ fn main() {
                 "pairs" => gen2::pairs(size, &mut out),
                 "single" => gen2::single(size, &mut rng, &mut out),
                 "clonescope" => gen2::clonescope(size, &mut out),
+                "clonerank" => gen2::clonerank(size, &mut out),
                 "junk" => gen2::junk(size, &mut rng, &mut out),
                 "parsefocus" => gen2::parsefocus(size, &mut out),
                 "ascii" => gen2::ascii(size, &mut rng, &mut out),
@@ -51,7 +52,7 @@ fn main() {
             }
             gen::write(&out, &args[7]);
         }
-        Some("suites") => println!("hist family scope scope1 parse cells prio dup orders pairs single clonescope junk parsefocus ascii groups splitopt fromstr regs sibs oci threads"),
+        Some("suites") => println!("hist family scope scope1 parse cells prio dup orders pairs single clonescope clonerank junk parsefocus ascii groups splitopt fromstr regs sibs oci threads"),
         Some("run") if args.len() == 6 => {
             let input = std::io::BufReader::new(std::fs::File::open(&args[2]).expect("ops"));
             let mut full = BufWriter::new(std::fs::File::create(&args[3]).expect("full"));
